@@ -396,6 +396,12 @@ def launch(argv, cwd, env, out_path, fault=None, trace=None, proc="", readdir_se
             os.chdir(cwd)
             os.environ.clear()
             os.environ.update(env)
+            try:
+                import time as _t
+
+                _t.tzset()  # the zygote's idea of the time zone must not leak into a child that was given another TZ
+            except Exception:
+                pass
             fd = os.open(out_path, os.O_WRONLY | os.O_CREAT | os.O_APPEND, 0o644)
             os.dup2(fd, 1)
             os.dup2(fd, 2)
